@@ -39,6 +39,10 @@ pub struct PipeCfg {
     pub stall: bool,
     /// Maximum octets buffered in one direction before writes block.
     pub window: usize,
+    /// Reads now and then fail with `ErrorKind::Interrupted` (EINTR) before
+    /// any data was consumed: a transient error a reader is expected to
+    /// retry.
+    pub eintr: bool,
 }
 
 impl Default for PipeCfg {
@@ -48,6 +52,7 @@ impl Default for PipeCfg {
             segment: false,
             stall: false,
             window: 1 << 20,
+            eintr: false,
         }
     }
 }
@@ -293,6 +298,10 @@ impl AsyncRead for SimStream {
             sim::stat("fault.stream_stall");
             cx.waker().wake_by_ref();
             return Poll::Pending;
+        }
+        if this.cfg.eintr && sim::chance("net.eintr.r", 1, 12) {
+            sim::stat("fault.stream_read_interrupted");
+            return Poll::Ready(Err(io::Error::new(io::ErrorKind::Interrupted, "simulated EINTR")));
         }
         let now = sim::now_ns();
         let mut g = this.rd.lock().unwrap();
